@@ -2,6 +2,7 @@ import Driver.Codec
 import Driver.Tracer
 import Driver.Journal
 import Driver.Precompile
+import Driver.Memory
 /-
   Model driver: one input line ↦ one output line (see DESIGN.md §2.6).
 -/
@@ -26,6 +27,10 @@ def dispatch (st : DState) (toks : List String) : DState × String :=
   | "J" :: rest =>
     let (j, tr, out) := Driver.journalOp st.j st.tr rest
     ({ st with j := j, tr := tr }, out)
+  | "M" :: "mcopy" :: rest => (st, Driver.mcopyLine rest)
+  | "S" :: "memmove" :: rest => (st, Driver.specMemmove rest)
+  | "TX" :: rest => (st, Driver.transientLine rest)
+  | ["S", "gate", fork, _] => (st, if fork = "Cancun" then "valid" else "invalid")
   | "P" :: rest => (st, Driver.precompileLine true rest)
   | "PB" :: rest => (st, Driver.precompileLine false rest)
   | "S" :: "abibytes" :: rest => (st, Driver.specAbiBytes rest)
